@@ -6,6 +6,7 @@ package e2e
 import (
 	"bufio"
 	"net"
+	"net/http"
 	"strconv"
 	"strings"
 	"sync"
@@ -138,6 +139,14 @@ func (u *BoltUpstream) serve(c net.Conn, reg *Registry) {
 				case <-gone:
 				}
 			}()
+		case b == "gateerr": // wait for the driver, then fail this exchange only (error status)
+			go func() {
+				select {
+				case <-rel:
+					reply(8)
+				case <-gone:
+				}
+			}()
 		case b == "gateclose":
 			go func() {
 				select {
@@ -218,6 +227,9 @@ func (b *BoltClient) Recv(d, grace time.Duration) Outcome {
 			continue
 		}
 		o.Kind, o.Status, o.Body = "response", int(f.Status), string(f.Content)
+		if up := f.Get("upstream"); up != "" { // set by the scripted upstream: tells its answers from the proxy's own
+			o.Header = http.Header{"X-Upstream": []string{up}}
+		}
 		if f.ID != b.id {
 			o.Kind = "response-wrong-id"
 		}
